@@ -37,7 +37,9 @@ type LockEvent struct {
 // RecordingLocker wraps a real locker: it logs every acquisition attempt before delegating (so a
 // stuck round still has a complete record) and can steer the schedule.
 type RecordingLocker struct {
-	Inner locker.Service
+	// The wrapped locker is embedded so that methods a changed tree adds to the interface are
+	// forwarded (unrecorded) instead of breaking the build.
+	locker.Service
 	mu    sync.Mutex
 	seq   atomic.Int64
 	reqOf map[int64]int
@@ -53,7 +55,7 @@ type RecordingLocker struct {
 
 // NewRecordingLocker wraps inner.
 func NewRecordingLocker(inner locker.Service) *RecordingLocker {
-	return &RecordingLocker{Inner: inner, reqOf: map[int64]int{}, gate: map[int]bool{}, first: map[int]bool{}, Steer: map[int]int{}, SteerWait: 5 * time.Millisecond}
+	return &RecordingLocker{Service: inner, reqOf: map[int64]int{}, gate: map[int]bool{}, first: map[int]bool{}, Steer: map[int]int{}, SteerWait: 5 * time.Millisecond}
 }
 
 // Register binds the calling goroutine to a request id.
@@ -103,21 +105,21 @@ func (l *RecordingLocker) Snapshot() []LockEvent {
 // PreLock implements locker.Service.
 func (l *RecordingLocker) PreLock() {
 	l.rec("prelock", "")
-	l.Inner.PreLock()
+	l.Service.PreLock()
 	l.rec("prelocked", "")
 }
 
 // PostLock implements locker.Service.
 func (l *RecordingLocker) PostLock() {
 	l.rec("postlock", "")
-	l.Inner.PostLock()
+	l.Service.PostLock()
 }
 
 // Lock implements locker.Service.
 func (l *RecordingLocker) Lock(key [48]byte) {
 	name := l.KeyName(key)
 	l.rec("lock", name)
-	l.Inner.Lock(key)
+	l.Service.Lock(key)
 	req := l.rec("locked", name)
 	l.mu.Lock()
 	wasFirst := !l.first[req]
@@ -141,5 +143,20 @@ func (l *RecordingLocker) Lock(key [48]byte) {
 // Unlock implements locker.Service.
 func (l *RecordingLocker) Unlock(key [48]byte) {
 	l.rec("unlock", l.KeyName(key))
-	l.Inner.Unlock(key)
+	l.Service.Unlock(key)
+}
+
+// TryLock is not part of locker.Service on the tree this harness was written for; it is recorded
+// when a changed tree's locker offers it, so that keys taken this way count as held.
+func (l *RecordingLocker) TryLock(key [48]byte) bool {
+	tl, ok := l.Service.(interface{ TryLock(key [48]byte) bool })
+	if !ok {
+		return false
+	}
+	if !tl.TryLock(key) {
+		return false
+	}
+	l.rec("locked", l.KeyName(key))
+
+	return true
 }
